@@ -158,6 +158,17 @@ def job_match_notes(n, m, which, strict, offset_ratio):
             le = S.sym_log2(ep[j]) if S.is_sym(ep[j]) else np.log2(ep[j])
             return cmp(abs(1200 * (lr - le)), pt)
 
+        if which == 'velocity':
+            # velocity-aware matcher with all velocities equal: the regression fits exactly (exact least-squares model), the
+            # velocity filter removes nothing, so the result must be a maximum matching under the note predicate
+            import mir_eval.transcription_velocity as TVEL
+            rv = (S._wrap(np.full(n, 64.0)) if A.sym else np.full(n, 64.0))
+            ev = (S._wrap(np.full(m, 64.0)) if A.sym else np.full(m, 64.0))
+            pairs = TVEL.match_notes(ri, rp, rv, ei, ep, ev, onset_tolerance=on, pitch_tolerance=pt, offset_ratio=ratio,
+                                     offset_min_tolerance=omin, strict=strict)
+            Tm = [[A.And(t_on(i, j), t_pitch(i, j), t_off(i, j) if ratio is not None else True) for j in range(m)] for i in range(n)]
+            _check_pairing(A, pairs, Tm, n, m, 'match_' + which)
+            return
         if which == 'onsets':
             pairs = T.match_note_onsets(ri, ei, onset_tolerance=on, strict=strict)
             Tm = [[t_on(i, j) for j in range(m)] for i in range(n)]
@@ -182,8 +193,8 @@ def job_match_notes(n, m, which, strict, offset_ratio):
         A.require(len(p2) == len(pairs), 'match_%s:size-order-independent' % which)
     nm = 'match_%s[%dx%d,strict=%s,offset_ratio=%s]' % (which, n, m, strict, offset_ratio)
     return Job('C05', nm, build, body, funcs=['transcription.match_notes', 'transcription.match_note_onsets',
-                                                'transcription.match_note_offsets', 'util._bipartite_match'],
-               bounds=dict(ref_notes=n, est_notes=m, time_lattice='1e-4 s'), timeout_s=1800, exact_floats=False)
+                                                'transcription.match_note_offsets', 'util._bipartite_match'] + (['transcription_velocity.match_notes'] if which == 'velocity' else []),
+               bounds=dict(ref_notes=n, est_notes=m, time_lattice='1e-4 s'), timeout_s=1800, exact_floats=False, lstsq_exact=(which == 'velocity'))
 
 
 # ---------------------------------------------------------------- multipitch per-frame counts
@@ -250,6 +261,11 @@ def jobs(tier):
                 js.append(job_match_notes(n, m, 'offsets', strict, ratio))
             for ratio in ((None, 0.25) if q else (None, 0.25, 0.5)):
                 js.append(job_match_notes(n, m, 'notes', strict, ratio))
+    for strict in (False, True):
+        js.append(job_match_notes(1, 1, 'velocity', strict, 0.25))
+        js.append(job_match_notes(1, 2, 'velocity', strict, None))
+        if not q:
+            js.append(job_match_notes(2, 2, 'velocity', strict, 0.25))
     for (n, m) in ([(2, 2)] if q else [(2, 2), (3, 3)]):
         js.append(job_mp_tp(n, m, False))
         js.append(job_mp_tp(n, m, True))
